@@ -4,7 +4,7 @@
    law is used, so they hold verbatim for Z, Q, R and for IEEE floats with a fixed summation order);
    the centring lemmas hold for every Op satisfying ring_theory. *)
 From Coq Require Import List Arith ZArith Ring Permutation Reals Lia.
-From TLV Require Import Base.Shape Base.PyList Base.Tensor Base.Ops Model.Base Model.Regress Proofs.RegressProofs Proofs.RegressProofsPlsr Proofs.RegressProofsR Proofs.RegressProofsLink Proofs.RegressProofsBlock Model.RegressObj Proofs.RegressProofsObj Proofs.RegressProofsObjR Model.RegressObj2 Proofs.RegressProofsR7 Proofs.RegressProofsScore.
+From TLV Require Import Base.Shape Base.PyList Base.Tensor Base.Ops Model.Base Model.Regress Proofs.RegressProofs Proofs.RegressProofsPlsr Proofs.RegressProofsR Proofs.RegressProofsLink Proofs.RegressProofsBlock Model.RegressObj Proofs.RegressProofsObj Proofs.RegressProofsObjR Model.RegressObj2 Proofs.RegressProofsR7 Proofs.RegressProofsScore Proofs.RegressProofsDegen.
 From TLV Require Model.Factorized Proofs.FactorizedProofs5 Model.Metrics.
 Import ListNotations.
 
@@ -691,6 +691,19 @@ Theorem C19_sumsq_zero_entries : forall v : tensor R, sumsq Rops v = 0%R -> fora
 Proof. exact sumsq_zero_entries. Qed.
 Print Assumptions C19_sumsq_zero_entries.
 
+(* degenerate training data, where that second alternative IS realised: if every sample of X is the same tensor then the centred
+   X is zero and EVERY X loading of EVERY component is the zero vector and every X score is 0 -- whatever the SVD initialisation,
+   the solver, the pass budget, the tolerance and Y (induction over the passes, the mode sweep and the deflations).  The
+   implementation computes 0/0 = NaN there, the scores are NaN and lstsq raises (LinAlgError): the fit does not succeed, which is
+   why the unit-norm clause is conditional on a successful fit (harness: degenerate_probe) *)
+Theorem C19_plsr_constant_X_degenerate : forall (init : tensor R -> list (tensor R)) (ne_solve : list (list R) -> list R -> list R)
+  (tol : R) (n_iter ncomp : nat) (X Y : tensor R) (n : nat) (sx : list nat) (r : plsr) (c : comp),
+  shape X = n :: sx -> 0 < n -> constant_samples Rops X ->
+  cp_plsr_fit Rops sqrt init ne_solve tol n_iter ncomp X Y = Ok r -> In c (comps r) ->
+  (forall l, In l (c_load c) -> sumsq Rops l = 0%R /\ forall J, tget Rops l J = 0%R) /\ (forall t, In t (c_score c) -> t = 0%R).
+Proof. exact plsr_constant_X_degenerate. Qed.
+Print Assumptions C19_plsr_constant_X_degenerate.
+
 (* ---- CP_PLSR.score(X, Y) (matrix Y) ---- *)
 (* it is the R2_score of tensorly/metrics/regression.py (the model of property C20, Model/Metrics.v, read only) applied to
    (Y - Y_mean_, predict(X) - Y_mean_): commutative ring *)
@@ -908,4 +921,15 @@ Example C19_score_nonvacuous :
   (0 < score_den a (mk [1%nat; 1%nat] [5%R]))%R /\ plsr_score Rops a (mk [1%nat; 1%nat] [0%R]) (mk [1%nat; 1%nat] [5%R]) = 0%R.
 Proof.
   cbv zeta. unfold plsr_score, score_den, fsum_idx, BigSum.sum_idx. cbn. split; [Lra.lra|]. unfold Rdiv. field.
+Qed.
+(* constant samples: the hypothesis of C19_plsr_constant_X_degenerate is satisfiable (two equal samples of shape 2) and the fit is defined *)
+Example C19_constant_samples_nonvacuous :
+  let X := mk [2%nat; 2%nat] [1; 2; 1; 2]%R in
+  constant_samples Rops X /\
+  exists r, cp_plsr_fit Rops sqrt (fun _ => [mk [2%nat] [1; 0]%R]) (fun _ b => b) 0%R 1 1 X (mk [2%nat; 1%nat] [1; 3]%R) = Ok r /\ length (comps r) = 1.
+Proof.
+  cbv zeta. split.
+  - intros i J Hi HJ. cbn in Hi. destruct J as [|j [|j' J']]; cbn in HJ; try tauto. destruct HJ as [Hj _].
+    destruct i as [|[|i]]; destruct j as [|[|j]]; try lia; reflexivity.
+  - eexists. split; [reflexivity|]. reflexivity.
 Qed.
